@@ -64,47 +64,64 @@ Definition cls_wrong (tag : list pout -> Z * f64) (e : example) : bool :=
 
 Definition all_labelled (l : list example) : Prop := Forall (fun e => label e <> None) l.
 
-Lemma count_loop_frame : forall tag l err r,
-  count_loop tag l err = Some r -> fst r = wrong_by (cls_wrong tag) l.
+Lemma frame_cls_labelled : forall wrong l, all_labelled l -> frame_cls wrong l = wrong_by wrong l.
 Proof.
-  intros tag l. induction l as [|e t IH]; intros err r H; cbn [count_loop] in H.
-  - injection H as <-. reflexivity.
-  - unfold cls_wrong at 1. cbn [wrong_by map]. destruct (label e) as [lab|] eqn:L; [|discriminate].
-    destruct (count_loop tag t _) as [[r' err']|] eqn:E; [|discriminate].
-    injection H as <-. cbn [fst]. apply IH in E. cbn [fst] in E. rewrite E. reflexivity.
+  intros wrong l H. induction H as [|e r He Hr IH]; [reflexivity|].
+  cbn [frame_cls wrong_by map]. destruct (label e); [|contradiction]. fold (wrong_by wrong r). rewrite IH. reflexivity.
 Qed.
 
-Lemma count_loop_total : forall tag l err, all_labelled l -> exists r, count_loop tag l err = Some r.
+Lemma count_loop_frame : forall tag l err, fst (count_loop tag l err) = frame_cls (cls_wrong tag) l.
+Proof.
+  intros tag l. induction l as [|e t IH]; intro err; cbn [count_loop frame_cls]; [reflexivity|].
+  unfold cls_wrong at 1. destruct (label e) as [lab|] eqn:L; [|reflexivity].
+  specialize (IH (if negb (fst (tag (ex_in e)) =? lab) then F64.add err one else err)).
+  destruct (count_loop tag t _) as [r' res]. cbn [fst] in *. rewrite IH. reflexivity.
+Qed.
+
+Lemma count_loop_total : forall tag l err, all_labelled l -> exists v, snd (count_loop tag l err) = Some v.
 Proof.
   intros tag l. induction l as [|e t IH]; intros err H; cbn [count_loop]; [eexists; reflexivity|].
   inversion H as [|? ? He Ht]; subst. destruct (label e) as [lab|]; [|contradiction].
-  destruct (IH (if negb (fst (tag (ex_in e)) =? lab) then F64.add err one else err) Ht) as [[r' err'] ->].
-  eexists; reflexivity.
+  destruct (IH (if negb (fst (tag (ex_in e)) =? lab) then F64.add err one else err) Ht) as [v Hv].
+  destruct (count_loop tag t _) as [r' res]. cbn [snd] in *. exists v. exact Hv.
 Qed.
 
-Lemma gaussian_loop_frame : forall tag scale l d r,
-  gaussian_loop tag scale l d = Some r -> fst r = wrong_by (cls_wrong tag) l.
+Lemma count_loop_done_labelled : forall tag l err v, snd (count_loop tag l err) = Some v -> all_labelled l.
 Proof.
-  intros tag scale l. induction l as [|e t IH]; intros d r H; cbn [gaussian_loop] in H.
-  - injection H as <-. reflexivity.
-  - cbn [wrong_by map]. unfold cls_wrong at 1. destruct (label e) as [lab|] eqn:L; [|discriminate].
-    destruct (gaussian_loop tag scale t _) as [[r' d']|] eqn:E; [|discriminate].
-    injection H as <-. cbn [fst]. apply IH in E. cbn [fst] in E. rewrite E.
-    destruct (fst (tag (ex_in e)) =? lab); reflexivity.
+  intros tag l. induction l as [|e t IH]; intros err v H; [constructor|]. cbn [count_loop] in H.
+  destruct (label e) as [lab|] eqn:L; [|discriminate H].
+  destruct (count_loop tag t _) as [r' res] eqn:E. cbn [snd] in H.
+  constructor; [rewrite L; discriminate|]. eapply IH. rewrite E. exact H.
+Qed.
+
+Lemma gaussian_loop_frame : forall tag scale l d, fst (gaussian_loop tag scale l d) = frame_cls (cls_wrong tag) l.
+Proof.
+  intros tag scale l. induction l as [|e t IH]; intro d; cbn [gaussian_loop frame_cls]; [reflexivity|].
+  unfold cls_wrong at 1. destruct (label e) as [lab|] eqn:L; [|reflexivity].
+  match goal with |- context [gaussian_loop tag scale t ?x] => specialize (IH x); destruct (gaussian_loop tag scale t x) as [r' res] end.
+  cbn [fst] in *. rewrite IH. destruct (fst (tag (ex_in e)) =? lab); reflexivity.
+Qed.
+
+Lemma gaussian_loop_done_labelled : forall tag scale l d v, snd (gaussian_loop tag scale l d) = Some v -> all_labelled l.
+Proof.
+  intros tag scale l. induction l as [|e t IH]; intros d v H; [constructor|]. cbn [gaussian_loop] in H.
+  destruct (label e) as [lab|] eqn:L; [|discriminate H].
+  match type of H with context [gaussian_loop tag scale t ?x] => destruct (gaussian_loop tag scale t x) as [r' res] eqn:E end.
+  cbn [snd] in H. constructor; [rewrite L; discriminate|]. eapply IH. rewrite E. exact H.
 Qed.
 
 (* the error counter after the loop: [mismatches] additions of 1.0 *)
 Fixpoint add_ones (k : nat) (x : f64) : f64 :=
   match k with O => x | S k' => add_ones k' (F64.add x one) end.
 
-Lemma count_loop_counter : forall tag l err r,
-  count_loop tag l err = Some r -> snd r = add_ones (length (filter (cls_wrong tag) l)) err.
+Lemma count_loop_counter : forall tag l err v,
+  snd (count_loop tag l err) = Some v -> v = add_ones (length (filter (cls_wrong tag) l)) err.
 Proof.
-  intros tag l. induction l as [|e t IH]; intros err r H; cbn [count_loop] in H.
+  intros tag l. induction l as [|e t IH]; intros err v H; cbn [count_loop] in H.
   - injection H as <-. reflexivity.
   - cbn [filter]. unfold cls_wrong at 1. destruct (label e) as [lab|] eqn:L; [|discriminate].
-    destruct (count_loop tag t _) as [[r' err']|] eqn:E; [|discriminate].
-    injection H as <-. cbn [snd]. apply IH in E. cbn [snd] in E. rewrite E.
+    destruct (count_loop tag t _) as [r' res] eqn:E. cbn [snd] in H.
+    specialize (IH _ v ltac:(rewrite E; exact H)). rewrite IH.
     destruct (negb (fst (tag (ex_in e)) =? lab)); reflexivity.
 Qed.
 
